@@ -88,6 +88,22 @@ CLAIMED["C14"] = (
     "Trusted: Coq kernel; extraction + driver; the flow generator (its abstract program is the model's input and the Go text the tool's input); go/types identity and "
     "assignability are Go library code (types are atoms in the model); unsupported signatures are outside the model.", "DESIGN.md §7 C14")
 
+GEN_TECH = "Coq proof about an executable semantics of cff.Flow (what a directive computes as a function of what each user function does) + correspondence: generated programs compiled by the real cff and executed under scenario tables, compared call by call with the extracted model"
+GEN_NOTE = ("Trusted: Coq kernel; extraction + driver; the program generator (the abstract flow is the model's input, its Go rendering the tool's input) and the harness stubs; "
+            "Go compiler/runtime. The theorems are about the model; the generated code is tied to it by sampled executions (seeded), not by proof.")
+CLAIMED["C11"] = (GEN_TECH,
+    "For every flow, scenario, task and valuation: predicate false => the task function is not called, its outputs are the zero values and it cannot fail the flow "
+    "(C11_false_*); the function is invoked only if there is no predicate or it returned true (C11_invoked_only_if_true); the predicate is called with exactly the values of "
+    "its own inputs as soon as they exist, independently of the task's inputs (C11_predicate_own_inputs); with FallbackWith the task never fails the flow, yields the fallback "
+    "values on error, panic or predicate panic, and the function's own results on success (C11_fallback_*). Tie: every generated execution's calls (with arguments), results and "
+    "returned error must equal the model's, for all single-failure scenarios of every generated flow.", GEN_NOTE, "DESIGN.md §7 C11")
+CLAIMED["C04"] = (GEN_TECH,
+    "Partial, labelled so. Model level, for every flow/scenario/task: an unabsorbed task panic is reported as that task's PanicError (C04_panic_reported), a task fails only "
+    "by what its own function or predicate did (C04_failure_is_own), FallbackWith absorbs (C04_fallback_absorbs), tasks are unaffected by other tasks' scenario entries "
+    "(C04_others_unaffected). That the real generated code recovers the panic, that errors.As yields a *cff.PanicError whose Value is the panic value (struct, error, string and "
+    "*cff.PanicError values) and that the process survives is established per execution by the correspondence (flow tasks and predicates here; Parallel/Slice/Map functions in C10).",
+    GEN_NOTE + " Process survival is a runtime fact no Gallina model exhibits; it is observed (the runner process must complete every planned execution).", "DESIGN.md §7 C04")
+
 ALL = ["C%02d" % i for i in range(1, 21)]
 
 NOT_YET = "check not built yet in this snapshot of /verif (work in progress per DESIGN.md §10); nothing is claimed for it at this commit"
